@@ -61,6 +61,8 @@ type registry struct {
 	keyMismatch []string
 	dupKeys     []string
 	badEntries  []string
+	dupMembers  []string // enum / set variables with two members equal case-insensitively (or an empty / comma member in a set)
+	defRejected []string // variables whose registered default is rejected by their own Type.Convert
 }
 
 func leanStrList(xs []string) string {
@@ -137,6 +139,22 @@ func dumpRegistry(special map[string]bool) (*registry, error) {
 		}
 		d := types.VerifDescribeSysVarType(m.Type)
 		v.Kind, v.Lo, v.Hi, v.NegOne, v.Values = d.Kind, d.Lo, d.Hi, d.NegOne, d.Values
+		if d.Kind == "enum" || d.Kind == "set" {
+			seenM := map[string]bool{}
+			for _, x := range d.Values {
+				l := strings.ToLower(x)
+				if seenM[l] || (d.Kind == "set" && (x == "" || strings.Contains(x, ","))) {
+					reg.dupMembers = append(reg.dupMembers, e.Key)
+					break
+				}
+				seenM[l] = true
+			}
+		}
+		if _, isSys := m.Type.(sql.SystemVariableType); isSys && m.ValueFunction == nil {
+			if _, _, err := m.Type.Convert(sql.NewEmptyContext(), m.Default); err != nil {
+				reg.defRejected = append(reg.defRejected, e.Key)
+			}
+		}
 		v.Special = special[e.Key] || m.ValueFunction != nil || m.NotifyChanged != nil
 		if d.VarName != "" && d.VarName != e.Key {
 			reg.badEntries = append(reg.badEntries, fmt.Sprintf("%s: type carries the name %q", e.Key, d.VarName))
@@ -412,6 +430,10 @@ func extract(a hx.ExtractArgs) error {
 	b.WriteString("]\n\n")
 	fmt.Fprintf(&b, "/-- map keys that differ from the entry's Name or are not lower case -/\ndef keyMismatch : List String := %s\n", leanStrList(reg.keyMismatch))
 	fmt.Fprintf(&b, "/-- keys present in both systemVars and mariadbSystemVars -/\ndef dupKeys : List String := %s\n", leanStrList(reg.dupKeys))
+	sort.Strings(reg.dupMembers)
+	sort.Strings(reg.defRejected)
+	fmt.Fprintf(&b, "/-- enum / set variables with case-insensitively equal members (or an empty / comma member of a set) -/\ndef dupMembers : List String := %s\n", leanStrList(reg.dupMembers))
+	fmt.Fprintf(&b, "/-- variables whose registered default is rejected by their own Type.Convert (run on the compiled code) -/\ndef defaultRejected : List String := %s\n", leanStrList(reg.defRejected))
 	fmt.Fprintf(&b, "/-- entries the dump could not describe (unexpected default type, non-integral bound, …) -/\ndef badEntries : List String := %s\n\n", leanStrList(reg.badEntries))
 	fmt.Fprintf(&b, "/-- sql/rowexec/rel_iters.go setSystemVar: names with a coupled second assignment -/\ndef coupledVars : List String := %s\n", leanStrList(facts.coupled))
 	fmt.Fprintf(&b, "/-- validateSystemVariableValue: names validated by name -/\ndef validatedVars : List String := %s\n", leanStrList(facts.validated))
